@@ -31,6 +31,8 @@ func checkC02(c *Ctx, r *Report) {
 	// sentences are meant is the one written in the file (C10.c rules and order, C10.d tokenisation)
 	includeSome(r, "C02.c", func(sub *Report) { c11c(c, sub, st) }, "buildTranslate")
 	includeClauses(c, r, "C02.c", checkC10, "C10.c", "C10.d")
+	// a shift into the state whose number equals the error code would be read as a syntax error (C06.b)
+	includeSome(r, "C02.c", func(sub *Report) { c06b(c, sub) }, "GenAcceptCode", "GenErrorCode")
 }
 
 func c02a(c *Ctx, r *Report) {
